@@ -646,6 +646,10 @@ impl<'m> MCTPSMBusContext<'m> {
                 // Vendor defined, we don't know what to do
                 Ok(((msg_type, payload), None))
             }
+            MessageType::SpdmOverMctp | MessageType::SecuredMessages => {
+                // Handled by the caller, nothing for us to respond with
+                Ok(((msg_type, payload), None))
+            }
             _ => Err((MessageType::Invalid, DecodeError::Unknown)),
         }
     }
